@@ -128,6 +128,10 @@ def consumeNormal (view : Nat × Nat) (c : Conn) : Conn × List String := Id.run
         match rs with
         | [r] =>
           -- rfbSendNewFBSize / rfbSendExtDesktopSize(cl, cl->scaledScreen->width, cl->scaledScreen->height)
+          -- `if (cl->useExtDesktopSize) rfbSendExtDesktopSize(…) else rfbSendNewFBSize(…)`
+          let want := if c.caps.useExtDesktopSize then rfbEncodingExtDesktopSize else rfbEncodingNewFBSize
+          if r.hdr.enc ≠ want then
+            out := out ++ [s!"!EXACT {c.id} size announcement uses {encName r.hdr.enc}, predicted {encName want}"]
           if (r.hdr.w, r.hdr.h) ≠ view then
             out := out ++ [s!"!EXACT {c.id} size announcement {r.hdr.w}x{r.hdr.h}, the client's view of the screen is {view.1}x{view.2}"]
           c := { c with annW := r.hdr.w, annH := r.hdr.h }
@@ -297,7 +301,7 @@ def dstep (s : DState) (toks : List String) : DState × List String :=
     withNormal s id fun c =>
       let es := encs.map natD
       let (caps, _) := setEncodings s.scr.cfg c.caps es
-      { c with caps := caps, hist := c.hist ++ es }
+      { c with caps := caps, hist := c.hist ++ es, cur := es }
   | ["fbur", id, _, _, _, _, _] => withNormal s id fun c => { c with ready := true }
   | ["ptr", id, mask, x, y] =>
     match getConn s (natD id) with
